@@ -357,6 +357,7 @@ theorem inv_of_touches {s s' : State} {c : Nat} (hinv : Inv s) (ht : Touches c s
 theorem step_inv (cfg : Cfg) (s : State) (op : Op) (hinv : Inv s) : Inv (stepS cfg s op) := by
   cases op with
   | adv ms => exact hinv
+  | dropsvc => exact hinv
   | arrive c tag st =>
       simp only [stepS]
       split
@@ -364,8 +365,8 @@ theorem step_inv (cfg : Cfg) (s : State) (op : Op) (hinv : Inv s) : Inv (stepS c
       · rename_i hk
         apply inv_of_touches hinv (touches_setPhase c s _)
         have hnone : lookup s.phase c = none := by
-          simp only [known, Bool.not_eq_true, Option.isSome_eq_false_iff, Option.isNone_iff_eq_none] at hk
-          exact hk
+          simp only [known, Bool.or_eq_true, not_or, Bool.not_eq_true, Option.isSome_eq_false_iff, Option.isNone_iff_eq_none] at hk
+          exact hk.2
         have := hinv c
         unfold Stage at this ⊢
         rw [hnone] at this
@@ -513,6 +514,7 @@ theorem step_ghost_unchanged (cfg : Cfg) (s : State) (op : Op)
     (stepS cfg s op).decs = s.decs ∧ (stepS cfg s op).decOf = s.decOf := by
   cases op with
   | adv ms => exact ⟨rfl, rfl⟩
+  | dropsvc => exact ⟨rfl, rfl⟩
   | arrive c tag st => simp only [stepS]; split <;> exact ⟨rfl, rfl⟩
   | drop c => simp only [stepS]; split <;> exact ⟨rfl, rfl⟩
   | poll c d =>
@@ -582,11 +584,13 @@ inductive ROp
   | poll (c : Nat)
   | drop (c : Nat)
   | adv (ms : Nat)
+  | dropsvc
 
 def stepR {γ : Type} (G : Gen γ) (cfg : Cfg) (sg : State × γ) : ROp → State × γ
   | .arrive c tag st => (stepS cfg sg.1 (.arrive c tag st), sg.2)
   | .drop c => (stepS cfg sg.1 (.drop c), sg.2)
   | .adv ms => (stepS cfg sg.1 (.adv ms), sg.2)
+  | .dropsvc => (stepS cfg sg.1 .dropsvc, sg.2)
   | .poll c =>
       if isFresh sg.1 c then (stepS cfg sg.1 (.poll c (some (view G cfg sg.2))), (decideG G cfg sg.2).2)
       else (stepS cfg sg.1 (.poll c none), sg.2)
@@ -635,6 +639,7 @@ theorem stepR_synced {γ : Type} (G : Gen γ) (cfg : Cfg) (g0 : γ) (sg : State 
   | arrive c tag st => exact keep _ (by intro c' d hh; cases hh)
   | drop c => exact keep _ (by intro c' d hh; cases hh)
   | adv ms => exact keep _ (by intro c' d hh; cases hh)
+  | dropsvc => exact keep _ (by intro c' d hh; cases hh)
   | poll c =>
       simp only [stepR]
       split
